@@ -142,6 +142,17 @@ def subset (idxs : List Int) (m : Msg α β) : Except Err (EncoderInput α β) :
           if mn < 0 then .error .lib            -- 'minimum subset index out of range'
           else subsetSects idxs (distinctCount idxs) m
 
+/-- Decoder invariant the theorems assume (checked on every message by the harness): a parameter
+    typed `template_data` holds a TemplateData with one value list per subset. -/
+def Param.wf (n : Nat) (p : Param α β) : Bool :=
+  if p.isData then
+    match p.value with
+    | .data rows => rows.length == n
+    | _ => false
+  else true
+
+def Msg.wf (n : Nat) (m : Msg α β) : Bool := m.all (·.all (·.wf n))
+
 /-- The code's `self` threaded through: `subset` only reads the message. -/
 def subsetSt (idxs : List Int) (m : Msg α β) : Except Err (EncoderInput α β) × Msg α β :=
   (subset idxs m, m)
